@@ -3,7 +3,6 @@ package codec
 import (
 	"bytes"
 	"encoding/json"
-	"fmt"
 	"reflect"
 	"testing"
 
@@ -182,5 +181,3 @@ func refencBody(s *simrt.Sim) {
 		s.Fail("wire-format", "decode-of-reference-value:"+e.name, "value decoded from the reference encoding differs: %s", d)
 	}
 }
-
-var _ = fmt.Sprintf
